@@ -719,7 +719,8 @@ func main() {
 		"wall_s":     wall,
 		"violations": nViol,
 	}
-	writeJSON(filepath.Join(verifDir, "evidence", prop+".json"), ev)
+	// (a sensitivity sweep against a patched copy of the repository must not overwrite the evidence of /repo)
+	writeJSON(filepath.Join(verifDir, "evidence", prop+os.Getenv("VERIF_EVIDENCE_SUFFIX")+".json"), ev)
 
 	// ------------------------------------------------------------ verdict
 	fmt.Printf("check %s tier=%s seed=%d: %d runs, %d non-trivial, %d distinct schedule signatures, %d macro-steps, %.0f simulated s, %.1fs wall\n",
